@@ -8,7 +8,11 @@ unallocated address, more allocations than the node can hold), created and recei
 create-and-keep / receive path, 1-2 pairs, matching or unmatched, receiver full, creator nearly full, receive
 before anything was sent), then StopApp on both nodes in either order; a half delivered to the peer may be
 received and measured after the creator has stopped.  Messages are built by hand (Init, OpenEPRSocket,
-Subroutine..., StopApp), no Signal(STOP).  40% of the cases use nodes whose REGISTER limit (1-3) is below the
+Subroutine..., StopApp), no Signal(STOP).  30% of the cases also issue MEASURE-DIRECTLY requests (create_epr of type
+M for 1-2 pairs, random-basis sets NONE / XZ / XYZ with arbitrary probabilities on either side; the peer receives
+the records with the same recv_epr subroutines, alone or mixed with pair halves, or never); the Lean driver has no
+type M (`unmodelled`), so these steps are ORACLE-ONLY: both nodes leave the tie at the first such request of a case.
+40% of the cases use nodes whose REGISTER limit (1-3) is below the
 qubit capacity, so that qalloc (and, rarely, pair creation) is refused by the register limit at any point of an
 application; an address the node refused is allocated again later (`retry` steps).
 
@@ -23,6 +27,10 @@ Oracle (independent of the Lean model), per node:
     nothing), and the used physical addresses are exactly the mapped ones (`alloc-bookkeeping`);
   * an address whose qalloc the node refused can be allocated as soon as the node has room for a qubit and a
     register (`address-not-reusable`);
+  * when a measure-directly request has been answered without error, no qubit of it remains at either node (held
+    qubits, simulated qubits, registers, qubitList, receive queue as before: `md-pair-leaves-qubits`), and every
+    physical address a successful entanglement request reserved is mapped by the unit module or free again
+    (`md-physical-address-not-released`); a record waiting in the receive queue is not a qubit;
   * the creator's StopApp changes nothing at the peer (held qubits, receive queue), and a half delivered before
     it is still received and measured afterwards.
 A leak is classed by how it arose: `epr-failure-leaks-temporaries` (F13: a create_epr / recv_epr subroutine that
@@ -59,7 +67,8 @@ TRUSTED = [
 ]
 ASSUMPTIONS = [
     "one application at a time per node; the model refuses (`unmodelled`) a second InitNewApp while one is active",
-    "create-and-keep requests only; measure-directly requests do not run against netqasm 2.3.0 (F14, C08)",
+    "measure-directly requests are judged by the oracle only (NqExec models create-and-keep; it answers `unmodelled` to "
+    "type M): from the first such request of a case neither node's messages go to the Lean driver",
     "`held` counts virtual qubits at the node; a half delivered by a peer and not yet received is held by the "
     "node but by no application and is subtracted (receive-queue length) before comparing with the baseline",
     "the virtual address given to a pair is free when the pair is delivered and the result array is long enough "
@@ -74,6 +83,44 @@ F13_KEY = "epr-failure-leaks-temporaries"
 
 def other(n):
     return "Bob" if n == "Alice" else "Alice"
+
+
+MD_KEY = "md-pair-leaves-qubits"
+MD_ADDR_KEY = "md-physical-address-not-released"
+RANDOM_BASIS = {0: "NONE", 1: "XZ", 2: "XYZ"}     # RandomBasis values simulaqron can measure in (CHSH is refused)
+# positions in the create-request argument array (netqasm.sdk.build_epr.SerializedCreateRequestIndex)
+ARG_RB_LOCAL, ARG_RB_REMOTE, ARG_P_LOCAL1, ARG_P_LOCAL2, ARG_P_REMOTE1, ARG_P_REMOTE2 = 2, 3, 10, 11, 12, 13
+
+
+def epr_create_md_text(npairs, remote, rbl=0, rbr=0, probs=(0, 0, 0, 0), sock=0, base=0):
+    """create_epr of type M (measure directly) for `npairs` pairs towards node id `remote`: nqcase.epr_create_text with
+    type 1 plus the random-basis sets and the basis probabilities (in 1/256) of the two sides; the arrays are those of a
+    create-and-keep request (the address array is not looked at for type M)"""
+    lines = nqcase.epr_create_text([0] * npairs, remote, sock=sock, base=base, typ=1).split("\n")
+    extra = []
+    for idx, val in ((ARG_RB_LOCAL, rbl), (ARG_RB_REMOTE, rbr), (ARG_P_LOCAL1, probs[0]), (ARG_P_LOCAL2, probs[1]),
+                     (ARG_P_REMOTE1, probs[2]), (ARG_P_REMOTE2, probs[3])):
+        if val:
+            extra += ["set R0 %d" % val, "set R1 %d" % idx, "store R0 @%d[R1]" % (base + 2)]
+    assert lines[-1].startswith("create_epr") and lines[-6] == "set R0 %d" % remote
+    return "\n".join(lines[:-6] + extra + lines[-6:])
+
+
+def inbox_entries(runner, node, sock=0):
+    """what waits in the node's receive queue, in order: 'K' (a pair half: a qubit at this node) or 'M' (the record of a
+    measure-directly pair: no qubit)"""
+    q = runner.nq.nodes[node].qubit_recv_epr.get(sock) or []
+    return ["M" if e.virt_num is None else "K" for e in q]
+
+
+def counts(runner, node):
+    """nqcase.Runner.counts with `inbox` = delivered pair HALVES not yet received (they are qubits held by the node and
+    by no application); records of measure-directly pairs wait in the same queue but are no qubits (`records`)"""
+    c = runner.counts(node)
+    kinds = [k for s_ in runner.nq.nodes[node].qubit_recv_epr for k in inbox_entries(runner, node, s_)]
+    c["inbox"] = kinds.count("K")
+    c["records"] = kinds.count("M")
+    return c
 
 
 class Gen:
@@ -213,7 +260,7 @@ def run_case(case, gen_rng=None, res=None):
 
     for gi in range(ngens):
         steps = [] if gen_rng is not None else list(case["gens"][gi])
-        base = {n: runner.counts(n) for n in NAMES}
+        base = {n: counts(runner, n) for n in NAMES}
         f13 = {n: False for n in NAMES}
         active = {n: None for n in NAMES}
         stopped = {n: False for n in NAMES}
@@ -235,19 +282,19 @@ def run_case(case, gen_rng=None, res=None):
             if kind == "open":
                 return send(where, node, "open", app=active[node], sock=0, remote=node_id[peer])
             if kind == "stop":
-                before_peer = runner.counts(peer)
+                before_peer = counts(runner, peer)
                 rec = send(where, node, "stop", app=active[node])
                 stopped[node] = True
                 mine[node] = None
                 if g is not None:
                     g.retry[node] = []
-                after_peer = runner.counts(peer)
+                after_peer = counts(runner, peer)
                 if [x[0] for x in rec["replies"]] != ["MsgDoneMessage"]:
                     add("stop-reply", "StopApp on %s answered %s (%s)" % (node, [x[0] for x in rec["replies"]],
                                                                        [e[:80] for e in rec["errors"]][:1]), where)
                 if (before_peer["virt"], before_peer["inbox"]) != (after_peer["virt"], after_peer["inbox"]):
                     add("stop-touches-peer", "StopApp on %s changed %s from %s to %s" % (node, peer, before_peer, after_peer), where)
-                now = runner.counts(node)
+                now = counts(runner, node)
                 b = base[node]
                 if now["qubitList"] != b["qubitList"] or now["virt"] - now["inbox"] != b["virt"] - b["inbox"]:
                     key = F13_KEY if f13[node] else "stop-leaves-qubits"
@@ -256,22 +303,33 @@ def run_case(case, gen_rng=None, res=None):
             # subroutines
             app = active[node]
             sub = step[2]
-            before = runner.counts(node)
+            before = counts(runner, node)
+            before_peer = counts(runner, peer)
+            inbox_before = inbox_entries(runner, node)
+            used_before = set(runner.executor(node)._used_physical_qubit_addresses)
             um_before = list(runner.unit_module(node) or [])
             ql_before = sorted(runner.nq.facs[node].qubitList)
             nd = runner.nq.nodes[node]
+            if sub == "create-m":
+                # the Lean driver answers `unmodelled` to a measure-directly request (NqExec.lean: typ != 0) and the
+                # peer's model would never see the record that arrives: both nodes leave the tie for the rest of the
+                # case; the oracle below still judges every message
+                for m in NAMES:
+                    runner.offmodel[m] = True
             rec = send(where, node, "sub", app=app, body=step[3], note=sub)
             if not rec["quiescent"]:
                 add("hang", "%s did not become quiescent after a %s subroutine" % (node, sub), where)
             failed = "ErrorMessage" in [x[0] for x in rec["replies"]]
+            if any(o[0] == "new" for o in rec["ops"]):
+                runner.created_any = True      # (nodes outside the tie leave no driver lines to read this from)
             if res is not None:
                 res.count("sub:%s:%s" % (sub, "error" if failed else "ok"))
                 for cause, _ign in rec["refused"]:
-                    res.count("new-qubit-refused:%s:%s" % ("pair" if sub in ("create", "recv") else "qalloc", cause))
+                    res.count("new-qubit-refused:%s:%s" % ("pair" if sub in ("create", "create-m", "recv") else "qalloc", cause))
             # ---- our own account of the unit module (local subroutines are straight-line)
             um_now = list(runner.unit_module(node) or [])
             mapped = set(i for i, p in enumerate(um_now) if p is not None)
-            if sub in ("create", "recv"):
+            if sub in ("create", "create-m", "recv"):
                 mine[node] = None if (failed or mine[node] is None) else mapped
             elif mine[node] is not None:
                 at = runner.failing_line(rec) if failed else len(rec["prog"])
@@ -304,17 +362,43 @@ def run_case(case, gen_rng=None, res=None):
                 # a refused qalloc changes nothing at the virtual node, so the node's room now is the room the
                 # qalloc found; our own account says the address is free
                 at = runner.failing_line(rec)
-                now = runner.counts(node)
+                now = counts(runner, node)
                 v = int(step[3].split("\n")[-2].split()[2])
                 if (at == len(rec["prog"]) - 1 and v not in mine[node] and now["virt"] < nd.maxQubits
                         and nd.numRegs < nd.maxRegs):
                     add("address-not-reusable", "%s: qalloc of address %d fails (%s) although the application does not "
                         "hold that address and the node has room (%d of %d qubits, %d of %d registers)"
                         % (node, v, [e[:80] for e in rec["errors"]][:1], now["virt"], nd.maxQubits, nd.numRegs, nd.maxRegs), where)
-            if sub in ("create", "recv") and failed and any(o[0] in ("new", "claim") for o in rec["ops"]):
+            if sub in ("create", "create-m", "recv") and failed and any(o[0] in ("new", "claim") for o in rec["ops"]):
                 f13[node] = True
+            if sub in ("create", "create-m", "recv") and not failed and not f13[node]:
+                # netqasm reserves a physical address per pair of a request (_get_unused_physical_qubit); when the request
+                # is done, the addresses it reserved are mapped by the unit module or free again
+                taken = inbox_before[:len(inbox_before) - len(inbox_entries(runner, node))] if sub == "recv" else []
+                used_now = set(runner.executor(node)._used_physical_qubit_addresses)
+                stray = (used_now - used_before) - set(p for p in um_now if p is not None)
+                if stray:
+                    md = sub == "create-m" or "M" in taken
+                    add(MD_ADDR_KEY if md else "alloc-bookkeeping",
+                        "%s after a %s subroutine%s that was answered without error: physical addresses %s stay marked used "
+                        "although the unit module %s maps none of them%s" % (
+                            node, sub, " (measure-directly records received)" if sub == "recv" and md else "", sorted(stray), um_now,
+                            "; no qfree / StopApp can release them (Executor._used_physical_qubit_addresses only shrinks when a "
+                            "mapped address is freed)" if md else ""), where)
+                    used0[node] |= stray          # reported once; the local-subroutine clause above would repeat it
+            if sub == "create-m" and not failed:
+                # a measure-directly pair is measured at once: when the request is done no qubit of it remains anywhere
+                now, now_peer = counts(runner, node), counts(runner, peer)
+                made = sum(1 for o in rec["ops"] if o[0] == "new")
+                if res is not None:
+                    res.count("md-pairs", made // 2)
+                for who, a, b in ((node, before, now), (peer, before_peer, now_peer)):
+                    if any(a[k] != b[k] for k in ("virt", "sim", "regs", "qubitList", "inbox")):
+                        add(MD_KEY, "%s: a measure-directly request of %s for %d pair(s) was answered without error and "
+                            "left qubits at %s: before %s, after %s (the executioner holds no handle to them: qubitList %s)"
+                            % (node, node, made // 2, who, a, b, sorted(runner.nq.facs[who].qubitList)), where)
             if sub == "free1" and not failed:
-                now = runner.counts(node)
+                now = counts(runner, node)
                 um_now = list(runner.unit_module(node) or [])
                 ql_now = sorted(runner.nq.facs[node].qubitList)
                 v = int(step[3].split("\n")[0].split()[2])
@@ -362,7 +446,7 @@ def run_case(case, gen_rng=None, res=None):
                         choices += ["stop"]
                         free = g.free_addrs(n)
                         if free:
-                            room = (runner.counts(n)["virt"] + 2 <= cap) and (runner.counts(peer)["virt"] + 1 <= cap)
+                            room = (counts(runner, n)["virt"] + 2 <= cap) and (counts(runner, peer)["virt"] + 1 <= cap)
                             room = room and runner.nq.nodes[n].numRegs + 2 <= runner.nq.nodes[n].maxRegs   # two fresh qubits
                             if room or rng.random() < 0.12:   # mostly when both ends have room (else: F13 class)
                                 choices += ["create"] * 3
@@ -370,6 +454,10 @@ def run_case(case, gen_rng=None, res=None):
                                 choices += ["recv"] * 5
                             elif rng.random() < 0.08:
                                 choices += ["recv"]          # nothing was sent: time-out
+                        if case.get("md"):
+                            room = counts(runner, n)["virt"] + 2 <= cap and runner.nq.nodes[n].numRegs + 2 <= runner.nq.nodes[n].maxRegs
+                            if room or rng.random() < 0.1:    # without room for the two temporary qubits: F13 class
+                                choices += ["create-m"] * 3
                     c = rng.choice(choices)
                     budget -= 1
                     if c == "stop":
@@ -387,27 +475,36 @@ def run_case(case, gen_rng=None, res=None):
                             vs[0] = maxq[n] + 1               # address outside the unit module: hand-over fails
                         rec = step(n, "sub", "create", nqcase.epr_create_text(vs, node_id[peer]))
                         pending[peer] += sum(1 for o in rec["ops"] if o[0] == "send" and o[2])
+                    elif c == "create-m":
+                        npairs = 1 if rng.random() < 0.6 else 2
+                        rbl, rbr = rng.randrange(3), rng.randrange(3)
+                        pl = [rng.randrange(0, 129), rng.randrange(0, 129)]        # 1/256; p1 + p2 <= 256 for XYZ
+                        pr = [rng.randrange(0, 129), rng.randrange(0, 129)]
+                        before_in = len(inbox_entries(runner, peer))
+                        step(n, "sub", "create-m", epr_create_md_text(npairs, node_id[peer], rbl, rbr, pl + pr))
+                        pending[peer] += len(inbox_entries(runner, peer)) - before_in
                     elif c == "recv":
                         free = g.free_addrs(n)
                         npairs = 1 if pending[n] < 2 or len(free) < 2 or rng.random() < 0.6 else 2
                         vs = rng.sample(free, npairs)
+                        taken = inbox_entries(runner, n)[:npairs]      # the i-th pair of the request gets the i-th entry
                         rec = step(n, "sub", "recv", nqcase.epr_recv_text(vs, node_id[peer]))
                         got = sum(1 for o in rec["ops"] if o[0] == "claim")
                         pending[n] -= got
                         ok = "ErrorMessage" not in [x[0] for x in rec["replies"]]
-                        if ok and got:
-                            step(n, "sub", "use-half", "set Q0 %d\nmeas Q0 M0\nret_reg M0" % vs[0])
+                        if ok and "K" in taken:
+                            step(n, "sub", "use-half", "set Q0 %d\nmeas Q0 M0\nret_reg M0" % vs[taken.index("K")])
         except _Stopped:
             halted = True
         gens_out.append(steps)
         if halted:
             break              # no consistency checks on a network the harness interfered with
         # ---- network-wide consistency once everything of this generation is over
-        tot = {k: sum(runner.counts(n)[k] for n in NAMES) for k in ("virt", "sim", "inbox")}
+        tot = {k: sum(counts(runner, n)[k] for n in NAMES) for k in ("virt", "sim", "inbox")}
         if tot["virt"] != tot["sim"]:
             add("sim-held-mismatch", "after generation %d: %d held qubits, %d simulated qubits" % (gi, tot["virt"], tot["sim"]), (gi, -1))
         for n in NAMES:
-            c = runner.counts(n)
+            c = counts(runner, n)
             if c["sim"] == 0 and c["regs"] != 0:
                 add("register-left", "%s has no simulated qubit but %d registers" % (n, c["regs"]), (gi, -1))
         if not runner.nq.all_locks_free():
@@ -439,6 +536,15 @@ def shrink(case, key):
             if shows(c):
                 best, changed = c, True
                 break
+    # a node's whole application (init .. stop) of one generation
+    for gi in range(len(best["gens"])):
+        for n in NAMES:
+            gens = [list(x) for x in best["gens"]]
+            gens[gi] = [s for s in gens[gi] if s[0] != n]
+            if gens[gi] and len(gens[gi]) < len(best["gens"][gi]):
+                c = dict(best, gens=gens)
+                if shows(c):
+                    best = c
     changed = True
     while changed:
         changed = False
@@ -489,6 +595,17 @@ FIXED = [
          ["Alice", "sub", "overflow", "set Q0 2\nqalloc Q0"], ["Alice", "stop"]],
         [["Alice", "init", 1, 2], ["Alice", "sub", "alloc", "set Q0 1\nqalloc Q0\ninit Q0"], ["Alice", "sub", "free1", "set Q0 1\nqfree Q0"],
          ["Alice", "sub", "alloc", "set Q0 0\nqalloc Q0"], ["Alice", "stop"]]]},
+    # measure-directly pairs (2, bases XZ / XYZ) while the creator also holds a qubit; the records are received; a
+    # second request is never received; the next generation uses the full capacity of both nodes
+    {"seed": 4, "cap": 3, "md": True, "gens": [
+        [["Alice", "init", 0, 3], ["Alice", "open"], ["Bob", "init", 0, 3], ["Bob", "open"],
+         ["Alice", "sub", "alloc", "set Q0 2\nqalloc Q0\ninit Q0\nh Q0"],
+         ["Alice", "sub", "create-m", epr_create_md_text(2, 1, 1, 2, (128, 0, 64, 64))],
+         ["Bob", "sub", "recv", nqcase.epr_recv_text([0, 1], 0)],
+         ["Bob", "sub", "create-m", epr_create_md_text(1, 0, 0, 0)],
+         ["Alice", "stop"], ["Bob", "stop"]],
+        [["Alice", "init", 1, 3], ["Alice", "sub", "alloc", "set Q0 0\nqalloc Q0\nset Q0 1\nqalloc Q0\nset Q0 2\nqalloc Q0"], ["Alice", "stop"],
+         ["Bob", "init", 0, 3], ["Bob", "sub", "alloc", "set Q0 0\nqalloc Q0\nset Q0 1\nqalloc Q0\nset Q0 2\nqalloc Q0"], ["Bob", "stop"]]]},
 ]
 
 
@@ -498,6 +615,8 @@ def run(ctx):
     res.rule = ("one case = fresh 2-node network (capacity 2-5 per node), 1-5 generations; per generation each node "
                 "runs one application of 2-8 random steps (local alloc/gates/free/failing subroutines, create / receive "
                 "of 1-2 pairs incl. unmatched, receiver full, bad address, receive time-out), stops in any order; "
+                "30% of the cases with measure-directly requests (1-2 pairs, bases NONE/XZ/XYZ, records received or not; "
+                "oracle only: both nodes leave the tie at the first one); "
                 "40% of the cases on nodes with register limit 1-3 below the qubit capacity (qalloc / pair creation "
                 "refused by the register limit at any point, later re-allocation of the refused address, StopApp); "
                 "the Lean model's node has no register limit: a plain qalloc refused by it is shown to the driver as an "
@@ -511,11 +630,13 @@ def run(ctx):
     found = {}
 
     def handle(case, viol, runner):
-        made = any("new:" in w for n in NAMES for (_l, w, _d) in runner.lines[n])
-        res.case({k: case[k] for k in ("cap", "regs", "gens") if k in case}, nontrivial=made)
+        made = getattr(runner, "created_any", False) or any("new:" in w for n in NAMES for (_l, w, _d) in runner.lines[n])
+        res.case({k: case[k] for k in ("cap", "regs", "md", "gens") if k in case}, nontrivial=made)
         res.count("cases")
         if case.get("regs") is not None:
             res.count("cases:register-limit")
+        if any(s_[1] == "sub" and s_[2] == "create-m" for g_ in case["gens"] for s_ in g_):
+            res.count("cases:measure-directly")
         res.count("tie:refusal-shown-as-failing-instruction", runner.substituted)
         res.count("tie:messages-oracle-only", sum(runner.untied.values()))
         res.count("generations", len(case["gens"]))
@@ -545,6 +666,8 @@ def run(ctx):
             case = {"seed": rng.randrange(1 << 30), "cap": rng.choice([2, 3, 3, 4, 5]), "ngens": rng.randrange(1, 6)}
             if rng.random() < 0.4:
                 case["regs"] = rng.randrange(1, min(3, case["cap"] - 1) + 1)
+            if rng.random() < 0.3:
+                case["md"] = True          # measure-directly requests among the steps: oracle only from the first one on
             viol, runner = run_case(case, gen_rng=random.Random(rng.randrange(1 << 30)), res=res)
             case.pop("ngens", None)
             handle(case, viol, runner)
